@@ -198,45 +198,72 @@ def cell_spec(rng, cell=None, nsurf=None, field_class=None):
         spec['object_radius'] = rng.uniform(80, 600) * rng.choice([-1, 1])
     if rng.random() < 0.12:
         spec['object_index'] = rng.uniform(1.2, 1.6)
+        spec['object_material'] = ['ideal', spec['object_index'], 0.0]
     return spec
 
 
-def build(spec):
-    """lensgen.build + the object-surface extras of cell_spec"""
-    import numpy as np
-    import lensgen
+ROUTES = ['direct', 'handbuilt', 'reuse', 'roundtrip']
+
+
+def _extras(o, spec):
+    """object-surface extras of cell_spec that lensgen.build does not know"""
     from optiland.geometries import StandardGeometry
-    from optiland.materials import IdealMaterial
-    o = lensgen.build(spec)
     obj = o.surface_group.surfaces[0]
     if spec.get('object_radius') and math.isfinite(spec['object_thickness']):
         obj.geometry = StandardGeometry(obj.geometry.cs, radius=spec['object_radius'], conic=0.0)
-    if spec.get('object_index'):
-        m = IdealMaterial(n=spec['object_index'], k=0.0)
-        obj.material_post = m
-        obj.material_pre = m
-        o.surface_group.surfaces[1].material_pre = m
     if spec.get('polarization'):
         from optiland.rays import PolarizationState
         o.set_polarization(PolarizationState(is_polarized=False))
     return o
 
 
+def build(spec, route='direct', rng=None):
+    """the prescription `spec` reached through one of the public routes:
+    direct     fresh Optic, keyword add_surface;
+    handbuilt  some surfaces enter as ready-made Surface objects (add_surface(new_surface=...));
+    reuse      an Optic that held a DIFFERENT lens (whose helpers were used), emptied with reset() and filled again;
+    roundtrip  built, to_dict() -> Optic.from_dict()."""
+    import random
+    import lensgen
+    from optiland.optic import Optic
+    rng = rng or random.Random(12345)
+    if route == 'roundtrip':
+        return Optic.from_dict(_extras(lensgen.build(spec), spec).to_dict())
+    if route in ('reuse', 'handbuilt'):
+        return _extras(lensgen.build_via(spec, route, rng), spec)
+    return _extras(lensgen.build(spec), spec)
+
+
+def spec_fields(spec):
+    """[(x, y, vx, vy)] as ENTERED (spec rows are [y, x, vx, vy])"""
+    return [(float(f[1]), float(f[0]), float(f[2]), float(f[3])) for f in spec['fields']]
+
+
 def coq_optic(name, o, spec):
-    """Definition <name> : optic FOps := ..."""
+    """Definition <name> : optic FOps := ...   The configuration (field type, telecentric flag, aperture, fields,
+    polarization, object geometry) is the one ENTERED (spec), not read back from the object; the surface table is read
+    from the object and guarded by lensgen.prescription_problems in the checks."""
     import paraxcorr
     fh = vlib.fhex
     ps = paraxcorr.psurfs(o)
-    obj = o.surface_group.surfaces[0]
-    R = float(getattr(obj.geometry, 'radius', INF))
-    k = float(getattr(obj.geometry, 'k', 0.0))
-    fields = '[' + '; '.join(f'mkField (O:=FOps) {fh(f.x)} {fh(f.y)} {fh(f.vx)} {fh(f.vy)}' for f in o.fields.fields) + ']'
-    surfs = '[' + ';\n   '.join(paraxcorr.coq_psurf(s) for s in ps) + ']'
-    pol = 'ignore' if o.polarization == 'ignore' else 'state'
+    R = float(spec['object_radius']) if spec.get('object_radius') and math.isfinite(spec['object_thickness']) else INF
+    k = 0.0
+    fields = '[' + '; '.join(f'mkField (O:=FOps) {fh(x)} {fh(y)} {fh(vx)} {fh(vy)}' for x, y, vx, vy in spec_fields(spec)) + ']'
+    surfs = '[' + ';\n   '.join(paraxcorr.coq_psurf(s_) for s_ in ps) + ']'
+    pol = 'state' if spec.get('polarization') else 'ignore'
     b = lambda v: 'true' if v else 'false'
-    return (f'Definition {name} : optic FOps := mkOptic (O:=FOps) {surfs}\n  {fh(R)} {fh(k)} "{o.field_type}"%string '
-            f'{b(o.obj_space_telecentric)} "{o.aperture.ap_type}"%string {fh(o.aperture.value)}\n  {fields} "{pol}"%string '
+    return (f'Definition {name} : optic FOps := mkOptic (O:=FOps) {surfs}\n  {fh(R)} {fh(k)} "{spec["field_type"]}"%string '
+            f'{b(spec.get("telecentric"))} "{spec["aperture"][0]}"%string {fh(spec["aperture"][1])}\n  {fields} "{pol}"%string '
             f'{b(o.surface_group.uses_polarization)}.')
+
+
+def entered_problems(o, spec):
+    """is the object the prescription that was entered (independent of the route)?"""
+    import lensgen
+    try:
+        return lensgen.prescription_problems(spec, o)
+    except Exception as e:     # noqa
+        return [{'kind': 'prescription', 'quantity': 'oracle could not read the lens', 'error': repr(e)[:120]}]
 
 
 def impl_launch(o, Hx, Hy, Px, Py, w, via='generate'):
@@ -276,13 +303,23 @@ def interp_oracle(h, hs, vs):
     return float(np.interp(h, hs, vs))
 
 
-def check_max_field(o):
+class _F:
+    def __init__(self, t):
+        self.x, self.y, self.vx, self.vy = t
+
+
+def entered_fields(spec):
+    return [_F(t) for t in spec_fields(spec)]
+
+
+def check_max_field(o, spec=None):
     """'maximum field' = largest field magnitude of the lens (independent recomputation)"""
-    exp = max(math.hypot(f.x, f.y) for f in o.fields.fields)
+    flds = entered_fields(spec) if spec is not None else o.fields.fields
+    exp = max(math.hypot(f.x, f.y) for f in flds)
     got = float(o.fields.max_field)
     if not abs(got - exp) <= 1e-12 * (1 + exp):
         return [{'kind': 'max-field', 'implementation': got, 'largest_field_magnitude': exp,
-                 'fields(x,y)': [[f.x, f.y] for f in o.fields.fields]}]
+                 'fields(x,y)': [[f.x, f.y] for f in flds]}]
     return []
 
 
@@ -302,7 +339,7 @@ def check_origins(o, spec, args, res):
     (finite object, heights); chief direction at the field angles (angle fields); rejection of the unrepresentable cells"""
     import oracles, paraxcorr
     Hx, Hy, Px, Py, vx, vy = args
-    bad = check_max_field(o)             # reported together with the origin clause it breaks
+    bad = check_max_field(o, spec)       # reported together with the origin clause it breaks
     inf = math.isinf(spec['object_thickness'])
     ft, tele, ap = spec['field_type'], bool(spec.get('telecentric')), spec['aperture'][0]
     if (inf and ft == 'object_height') or (inf and tele):
@@ -314,7 +351,7 @@ def check_origins(o, spec, args, res):
             bad.append({'kind': 'origins-raise', 'error': list(res[1:]), 'cell': [inf, ft, tele, ap]})
         return bad
     x, y, z = res[1]
-    mf = max(math.hypot(f.x, f.y) for f in o.fields.fields)
+    mf = max(math.hypot(f.x, f.y) for f in entered_fields(spec))
     ps = paraxcorr.psurfs(o)
     scale = 1 + abs(x) + abs(y)
     if not inf and ft == 'object_height':
@@ -343,6 +380,20 @@ def check_origins(o, spec, args, res):
     return bad
 
 
+def entered_vig(spec, Hx, Hy):
+    """vignetting factors of the field (Hx, Hy) from the ENTERED field list (numpy interp over the y-sorted fields,
+    normalised by the largest y field, as documented); None when the list has x fields"""
+    fl = entered_fields(spec)
+    if any(f.x != 0 for f in fl):
+        return None
+    fys = [f.y for f in fl]
+    my = max(fys)
+    order = sorted(range(len(fys)), key=lambda i: fys[i])
+    hs = [fys[i] / my if my != 0 else 0.0 for i in order]
+    h = math.hypot(Hx, Hy)
+    return (interp_oracle(h, hs, [fl[i].vx for i in order]), interp_oracle(h, hs, [fl[i].vy for i in order]))
+
+
 def check_launch(o, spec, ray, res, tol=1e-8):
     """ray = (Hx, Hy, Px, Py, w); res = impl_launch result.  Returns a list of violation dicts.
     Px, Py are the pupil coordinates handed to generate_rays; the generator's own (1 - v) factor is part of the aim."""
@@ -353,8 +404,8 @@ def check_launch(o, spec, ray, res, tol=1e-8):
     inf = math.isinf(spec['object_thickness'])
     ft, tele, ap = spec['field_type'], bool(spec.get('telecentric')), spec['aperture'][0]
     rules = must_reject(inf, ft, tele, ap)
-    bad.extend(check_max_field(o))       # reported together with the launch clause it breaks
-    if any(f.x != 0 for f in o.fields.fields):
+    bad.extend(check_max_field(o, spec))       # reported together with the launch clause it breaks
+    if any(f.x != 0 for f in entered_fields(spec)):
         # get_vig_factor refuses lenses with x fields (NotImplementedError) before anything else: a loud refusal, not a trace
         if res[0] == 'ok' or res[1] != 'NotImplementedError':
             bad.append({'kind': 'x-fields-traced-without-vignetting-model', 'result': list(res[:2])})
@@ -370,7 +421,7 @@ def check_launch(o, spec, ray, res, tol=1e-8):
         return bad
     x, y, z, L, M, N, inten, ww, opd = res[1]
     ps = paraxcorr.psurfs(o)
-    mf = max(math.hypot(f.x, f.y) for f in o.fields.fields)
+    mf = max(math.hypot(f.x, f.y) for f in entered_fields(spec))
     q = oracles.abcd_quantities(ps, ap, spec['aperture'][1], ft, mf)
     finite = all(math.isfinite(v) for v in (x, y, z, L, M, N))
     if not tele and not all(v is not None and math.isfinite(v) for v in (q.get('EPL'), q.get('EPD'))):
@@ -386,17 +437,18 @@ def check_launch(o, spec, ray, res, tol=1e-8):
         bad.append({'kind': 'path-length', 'value': opd})
     if ww != w:
         bad.append({'kind': 'wavelength', 'value': ww, 'requested': w})
-    fys = [f.y for f in o.fields.fields]
+    eflds = entered_fields(spec)
+    fys = [f.y for f in eflds]
     # vignetting of this field (independent: numpy interp over the sorted field list)
     my = max(fys)
     order = sorted(range(len(fys)), key=lambda i: fys[i])
     hs = [fys[i] / my if my != 0 else 0.0 for i in order]
     h = math.hypot(Hx, Hy)
-    v0 = interp_oracle(h, hs, [o.fields.fields[i].vx for i in order])
-    v1 = interp_oracle(h, hs, [o.fields.fields[i].vy for i in order])
+    v0 = interp_oracle(h, hs, [eflds[i].vx for i in order])
+    v1 = interp_oracle(h, hs, [eflds[i].vy for i in order])
     scale = 1 + abs(x) + abs(y) + abs(z)
     if tele:
-        n0 = ps[0]['npost']
+        n0 = float(spec.get('object_index') or 1.0)
         sin_t = spec['aperture'][1] / n0          # NA = n sin(theta)
         # origin on the object at the field height
         if abs(x - Hx * mf) > tol * scale or abs(y - Hy * mf) > tol * scale:
@@ -439,7 +491,7 @@ def check_launch(o, spec, ray, res, tol=1e-8):
         if N > 0 and abs(abs(L / N) - abs(math.tan(math.radians(Hx * mf)))) > 1e-9:
             bad.append({'kind': 'field-angle-x', 'tan_x': L / N, 'expected_abs': math.tan(math.radians(Hx * mf))})
     else:
-        objz = ps[0]['z']
+        objz = -float(spec['object_thickness'])
         if ft == 'object_height':
             if abs(x - Hx * mf) > tol * scale or abs(y - Hy * mf) > tol * scale:
                 bad.append({'kind': 'object-height', 'origin': [x, y], 'expected': [Hx * mf, Hy * mf]})
@@ -476,7 +528,7 @@ def check_trace_launch(o, spec, name, n, Hy, w, recs):
         bad.append({'kind': 'trace-count', 'rays': len(recs), 'sampling_points': len(x0)})
         return bad
     ps = paraxcorr.psurfs(o)
-    mf = max(math.hypot(f.x, f.y) for f in o.fields.fields)
+    mf = max(math.hypot(f.x, f.y) for f in entered_fields(spec))
     q = oracles.abcd_quantities(ps, spec['aperture'][0], spec['aperture'][1], spec['field_type'], mf)
     EPL, EPD = q.get('EPL'), q.get('EPD')
     if EPL is None or EPD is None or not (math.isfinite(EPL) and math.isfinite(EPD)) or EPD == 0:
